@@ -2,6 +2,7 @@ package main
 
 import (
 	"go/ast"
+	"go/constant"
 	"go/types"
 	"strings"
 
@@ -270,4 +271,16 @@ func closureParamArgs(p *Program, info *types.Info, decl *ast.FuncDecl, v types.
 		return args, true, true
 	}
 	return nil, true, false
+}
+
+// constInt64: the integer value of a constant expression.
+func constInt64(tv types.TypeAndValue) (int64, bool) {
+	if tv.Value == nil {
+		return 0, false
+	}
+	v := constant.ToInt(tv.Value)
+	if v.Kind() != constant.Int {
+		return 0, false
+	}
+	return constant.Int64Val(v)
 }
